@@ -633,6 +633,28 @@ func gen(r *vlib.R, n int, tier string, emit func(string)) {
 			}
 			emit(fmt.Sprintf("p expanded %s %s %s 16,46,47 %s %d %s", z, owner, next, q, vlib.Pick(r, []int{1, 28, 16, 43}), kind))
 			n--
+			// the label rule on its own: owners with and without a leading *, Labels around the owner's count
+			for i := 0; i < 4; i++ {
+				o := owner
+				switch r.Intn(4) {
+				case 0:
+					o = z.child("*")
+				case 1:
+					o = owner.child("*")
+				case 2:
+					o = z
+				}
+				l := len(o) - 2 + r.Intn(4)
+				if l < 0 {
+					l = 0
+				}
+				sg := z
+				if r.Chance(1, 6) {
+					sg = owner
+				}
+				emit(fmt.Sprintf("p match %s %s %d %d", sg, o, l, vlib.Pick(r, []int{47, 50, 1, 47})))
+				n--
+			}
 		}
 		switch k := r.Intn(20); {
 		case k < 11:
